@@ -1,4 +1,4 @@
-"""Fail-closed translator of the bodies of three Hypergraph mutators - add_node_to_edge, remove_edge,
+"""Fail-closed translator of the bodies of four Hypergraph mutators - add_node, add_node_to_edge, remove_edge,
 remove_node_from_edge (xgi/core/hypergraph.py) - into programs of the small imperative language of
 coq/Model/PyIR.v (coq/Gen/Mutators.v).  `Props/C01.v` proves that running the regenerated programs on a state
 satisfying the class invariant is exactly what the hand-written model does.
@@ -8,7 +8,7 @@ Accepted statements (anything else fails the translation):
     self._node[<v>] = set()     self._edge[<v>] = set()     self._node_attr[<v>] = {}     self._edge_attr[<v>] = {}
     self._node[<v>].add(<v>)    self._edge[<v>].add(<v>)    ....remove(<v>)
     del self._edge[<v>]         del self._edge_attr[<v>]    (and _node / _node_attr)
-    update_uid_counter(self, <v>)
+    update_uid_counter(self, <v>)        self._node_attr[<v>].update(<the **attr of the method>)
     for <x> in self._edge[<v>].copy(): <stmts>            (or self._node[<v>].copy())
   <cond> ::= <v> in self._T | <v> not in self._T | <v> [not] in self._T[<v>] | not self._T[<v>] | <flag> | not <cond>
            | <cond> and <cond>
@@ -26,8 +26,8 @@ class TranslationError(Exception):
 
 
 class M:
-    def __init__(self, labels, flags):
-        self.labels, self.flags, self.loop = labels, flags, None
+    def __init__(self, labels, flags, kwattr=None):
+        self.labels, self.flags, self.loop, self.kwattr = labels, flags, None, kwattr
 
     def v(self, x):
         if isinstance(x, ast.Name) and x.id in self.labels:
@@ -91,13 +91,18 @@ class M:
             if s and ast.unparse(val) == "set()":
                 return f"(SNewSet {s[0]} {s[1]})"
             s = self.sub(tgt, ATABLES)
-            if s and ast.unparse(val) == "{}":
+            if s and ast.unparse(val) in ("{}", "self._node_attr_dict_factory()", "self._edge_attr_dict_factory()"):
                 return f"(SNewAttr {s[0]} {s[1]})"
         if isinstance(st, ast.Expr) and isinstance(st.value, ast.Call):
             call = st.value
             if isinstance(call.func, ast.Name) and call.func.id == "update_uid_counter" and len(call.args) == 2 \
                     and ast.unparse(call.args[0]) == "self":
                 return f"(SUid {self.v(call.args[1])})"
+            if isinstance(call.func, ast.Attribute) and call.func.attr == "update" and len(call.args) == 1 \
+                    and isinstance(call.args[0], ast.Name) and call.args[0].id == self.kwattr:
+                s = self.sub(call.func.value, ATABLES)
+                if s:
+                    return f"(SAttrUpdate {s[0]} {s[1]})"
             if isinstance(call.func, ast.Attribute) and call.func.attr in ("add", "remove") and len(call.args) == 1:
                 s = self.sub(call.func.value, TABLES)
                 if s:
@@ -121,7 +126,8 @@ class M:
         raise TranslationError(f"statement not understood: {ast.unparse(st)[:90]}")
 
 
-SPEC = [("src_add_node_to_edge", "add_node_to_edge", ["edge", "node"], []),
+SPEC = [("src_add_node", "add_node", ["node"], []),
+        ("src_add_node_to_edge", "add_node_to_edge", ["edge", "node"], []),
         ("src_remove_edge", "remove_edge", ["idx"], []),
         ("src_remove_node_from_edge", "remove_node_from_edge", ["edge", "node"], ["remove_empty"])]
 
@@ -136,15 +142,16 @@ def translate():
         fns = [n for n in cls[0].body if isinstance(n, ast.FunctionDef) and n.name == pyname]
         if len(fns) != 1 or [a.arg for a in fns[0].args.args] != ["self"] + labels + flags:
             raise TranslationError(f"Hypergraph.{pyname} not found or unexpected parameters")
+        kw = fns[0].args.kwarg.arg if fns[0].args.kwarg else None
         body = [s for s in fns[0].body if not (isinstance(s, ast.Expr) and isinstance(s.value, ast.Constant))]
-        out.append(f"Definition {coqname} : list stmt :=\n  {M(labels, flags).block(body)}.\n")
+        out.append(f"Definition {coqname} : list stmt :=\n  {M(labels, flags, kw).block(body)}.\n")
     return out
 
 
 def regenerate():
     defs = translate()
     os.makedirs(GEN, exist_ok=True)
-    text = ("(* GENERATED by harness/translate_mutators.py from xgi/core/hypergraph.py (add_node_to_edge, remove_edge, remove_node_from_edge) - do not edit. *)\n"
+    text = ("(* GENERATED by harness/translate_mutators.py from xgi/core/hypergraph.py (add_node, add_node_to_edge, remove_edge, remove_node_from_edge) - do not edit. *)\n"
             "From Coq Require Import List.\nFrom XV Require Import Base.Outcome Model.PyIR.\nImport ListNotations.\n\n" + "\n".join(defs))
     p = os.path.join(GEN, "Mutators.v")
     if not os.path.exists(p) or open(p).read() != text:
